@@ -935,6 +935,33 @@ pub async fn run_op2(ctx: &Ctx, op: AOp, info: &Rc<TaskInfo>, handle: Handle) {
                 ctx.res.borrow_mut().lifetimes[i] = Some((l, id));
             }
         }
+        AKind::LifetimeWaiter => {
+            let taken = {
+                let mut res = ctx.res.borrow_mut();
+                let live: Vec<usize> = (0..res.lifetimes.len()).filter(|i| res.lifetimes[*i].is_some()).collect();
+                if live.is_empty() {
+                    None
+                } else {
+                    res.lifetimes[live[op.a as usize % live.len()]].take()
+                }
+            };
+            if let Some((mut l, id)) = taken {
+                let c2 = ctx.clone();
+                let holder: Rc<RefCell<Option<Rc<TaskInfo>>>> = Rc::new(RefCell::new(None));
+                let h2 = holder.clone();
+                let ti = ctx.spawn(format!("client{}-lifetime-waiter", ctx.client), false, async move {
+                    let info = h2.borrow().clone().unwrap();
+                    // Resolves when the scope ends - or when the client stops (end of stream).
+                    blocked(&info, "Lifetime::ended", false, l.ended()).await;
+                    if !c2.client_faulted.get() && !c2.stopping.get() {
+                        c2.probe("lifetime-end-awaited");
+                        c2.lifetime_obs.borrow_mut().push((id, c2.bstep.get()));
+                    }
+                    c2.res.borrow_mut().lifetimes.push(Some((l, id)));
+                });
+                *holder.borrow_mut() = Some(ti);
+            }
+        }
         AKind::LifetimeDrop => {
             let mut res = ctx.res.borrow_mut();
             let live: Vec<usize> = (0..res.lifetimes.len()).filter(|i| res.lifetimes[*i].is_some()).collect();
